@@ -94,11 +94,13 @@ fn main() {
         "A case = (initial document model, history = Vec<Op>, walk, k, extra, stepwise). Documents: 12x8..30x20, 1..=3 layers (alpha, offset incl. negative, hidden, locked, \
          position/alpha locked, Chars/Attributes mode, paste/image roles, rows allocated fully or only as far as content reaches), sparse cells (CP437 blocks/lines, invisible, blink, \
          transparent colour, colours beyond the palette, font pages 0..2), ice/palette/font modes, custom palettes, extra font pages, optional SAUCE, optional selection and selection \
-         mask (installed through the API, so the undo stack is not empty at the start), caret, current layer, mirror mode. Op = enum over the public editing entry points of EditState \
-         (73 kinds incl. nested atomic groups opened/closed by BeginAtomic/EndAtomic markers); layer arguments are mapped monotonically onto the layers existing at that moment (raise: \
+         mask (installed through the API, so the undo stack is not empty at the start), caret, current layer, mirror mode, and the transient state a front end leaves between \
+         operations: a pending preview offset on a layer (drag in progress), an overlay layer with a tool preview, a selection in progress or locked, caret colours / insert mode. Op = enum over the public editing entry points of EditState \
+         (73 kinds incl. nested atomic groups opened/closed by BeginAtomic/EndAtomic markers) plus 4 front-end actions that register no undo step (Drag = set_preview_offset on the \
+         current layer, DragCancel, Hover = draw into / remove the overlay layer, SetCaretState); layer arguments are mapped monotonically onto the layers existing at that moment (raise: \
          all but the top one, lower / merge down: all but the bottom one) plus out-of-range boundary values; positions and sizes in range and at the boundary (-1, 0, size, size+1). \
-         exhaustive_short: every history of length <= 2 (quick) over a reduced alphabet of 93 concrete operations on 2 fixed documents, thorough adds every history of length 3 over \
-         the same alphabet without the two flips (91 operations); histories / bulk / flip_histories: random histories of length 1..=40 (mean 7; flip_histories 1..=6 with flip_x/flip_y, \
+         exhaustive_short: every history of length <= 2 (quick) over a reduced alphabet of 96 concrete operations on 2 fixed documents, thorough adds every history of length 3 over \
+         the same alphabet without the two flips (94 operations); histories / bulk / flip_histories: random histories of length 1..=40 (mean 7; flip_histories 1..=6 with flip_x/flip_y, \
          which are excluded elsewhere because each call costs 25-90 ms). A history ends before the first operation that returns Err or panics (it is re-run on a fresh editor without \
          that operation; counted in the classes ended_err|Kind / ended_panic|Kind). Oracle on the remaining operations: undo exactly undo_stack_len() growth steps -> observational \
          snapshot equals the initial one; redo them -> equals the post-history one; then visit generated operation boundaries by undo/redo steps and compare with the snapshot recorded \
@@ -116,7 +118,7 @@ fn main() {
          C08-change-font-slot is open, its precondition (stamp_layer_down; insert/delete row/column; alpha-locked layers; set_layer_size; change_font_slot) is generated in no part \
          (coverage.steered_away lists what was removed); witness and replay files are never steered.",
     );
-    eng.assume("the snapshot reads the document only through public accessors (get_char on every cell inside each layer's size, sizes, offsets, Properties, role, transparency, default font page, palette RGB, font table, SAUCE fields, buffer size and modes); caret, selection, current layer, preview offset and dirty flags are not part of the document state named by the statement; the font page of an invisible cell is not compared (the engine pads rows with font-page-0 invisibles whatever the layer's default page is)");
+    eng.assume("the snapshot reads the document only through public accessors (get_char on every cell inside each layer's size, sizes, offsets, Properties, role, transparency, default font page, palette RGB, font table, SAUCE fields, buffer size and modes); caret, selection, current layer, overlay layer, a pending preview offset and dirty flags are not part of the document state named by the statement (undo may clear a preview offset; the layer offset that is compared is the stored one, Layer::get_base_offset); the font page of an invisible cell is not compared (the engine pads rows with font-page-0 invisibles whatever the layer's default page is)");
     eng.assume("SAUCE records handed to update_sauce_data carry the current buffer size (Buffer::set_size keeps sauce.buffer_size in step, so a record with a foreign size is outside the editor's own invariant)");
     eng.assume("release profile semantics (overflow-checks off, debug-assertions off); an operation that panics or returns Err ends the history and is not a C08 violation");
 
